@@ -140,7 +140,7 @@ def r2_ack_delimiters(ctx):
 
 
 def r3_shared_with_c01(ctx):
-    for fn in (c01.r4_delimiter_provenance, c01.r5_strip_set, c01.r6_isa_not_subsplit):
+    for fn in (c01.r3_tokenizer_exits, c01.r4_delimiter_provenance, c01.r5_strip_set, c01.r6_isa_not_subsplit):
         for o in fn(ctx):
             yield o
 
@@ -197,6 +197,6 @@ def r4_parsed_values_only(ctx):
 RULES = [
     Rule('C12.R1', 'no literal delimiter on the input path beyond the enumerated, re-verified exemptions', r1_literal_delimiters, floor=5),
     Rule('C12.R2', 'acknowledgement delimiters are literals; the input terminators flow nowhere in the visitors', r2_ack_delimiters, floor=10),
-    Rule('C12.R3', 'delimiter provenance, CR/LF strip set, ISA not sub-split (shared with C01.R4-R6)', r3_shared_with_c01, floor=16),
+    Rule('C12.R3', 'delimiter provenance, CR/LF strip set, ISA not sub-split (shared with C01.R4-R6)', r3_shared_with_c01, floor=24),
     Rule('C12.R4', 'validation never inspects re-formatted text', r4_parsed_values_only, floor=2),
 ]
